@@ -233,7 +233,7 @@ func c06c(c *Ctx) {
 	if f == nil {
 		return
 	}
-	create := f.Calls(specLockCrea)
+	create := f.CallsW(specLockCrea)
 	lockFetch := f.Calls(specLockFet)
 	var ckFetch []Site
 	for _, s := range f.Calls(specFetch) {
@@ -335,7 +335,7 @@ func c06d(c *Ctx) {
 		case cs.success && pt == nil:
 			c.Bad(inst, okRets[0].Pos(), "LoadLog cannot succeed in a legitimate start-up state")
 		case cs.staging == "never":
-			if p2, _ := g.ReachableFromEntry(cut, atAnySite(append(append([]Site{}, stagingFetch...), f.Calls(specApply)...))); p2 != nil {
+			if p2, _ := g.ReachableFromEntry(cut, atAnySite(append(append([]Site{}, stagingFetch...), f.CallsW(specApply)...))); p2 != nil {
 				c.Bad(inst, f.Pos(p2.B.Nodes[p2.I]), "the staging bundle is applied although storage is already at the lock checkpoint")
 			} else {
 				c.add(Result{Instance: inst, Verdict: Discharged, Evals: 2, Detail: "success reachable, staging untouched"})
